@@ -83,7 +83,7 @@ func drawRule(tp *simkit.Tape) *dataRule {
 	nS := tp.Range(1, 3)
 	per := tp.Range(1, 3)
 	total := nS * per
-	typ := []string{"hash", "mod", "range", "date_year", "date_month", "date_day", "mycat_mod", "mycat_long", "mycat_murmur"}[tp.Choose(9)]
+	typ := []string{"hash", "mod", "range", "date_year", "date_month", "date_day", "mycat_mod", "mycat_long", "mycat_murmur", "mycat_string", "mycat_padding_mod"}[tp.Choose(11)]
 	if force := simkit.Params["rule"]; force != "" {
 		typ = force
 	}
@@ -117,7 +117,13 @@ func drawRule(tp *simkit.Tape) *dataRule {
 		ranges := []string{"20140901-20140903", "20140905-20140906", "20141231-20150101"}[:nS]
 		sh.DateRange = ranges
 		d.keys = strs("2014-08-31", "2014-09-01", "2014-09-02", "2014-09-03", "2014-09-04", "2014-09-05", "2014-09-06", "2014-09-07", "2014-12-30", "2014-12-31", "2015-01-01", "2015-01-02")
-	case "mycat_mod", "mycat_long", "mycat_murmur":
+	case "mycat_mod", "mycat_long", "mycat_murmur", "mycat_string", "mycat_padding_mod":
+		if typ == "mycat_padding_mod" && total < 2 {
+			// the rule takes the key modulo the number of tables and refuses fewer than two
+			per, total = 2, 2*nS
+			d.perSlice = per
+			sh.Locations = locs(nS, per)
+		}
 		d.mycat = true
 		d.db = "db_mycat"
 		sh.DB = "db_mycat"
@@ -127,6 +133,27 @@ func drawRule(tp *simkit.Tape) *dataRule {
 		}
 		sh.Databases = dbs
 		switch typ {
+		case "mycat_string":
+			// a string key (column ct), hashed over a slice of its characters, then placed like mycat_long
+			d.key, sh.Key = "ct", "ct"
+			sh.PartitionCount, sh.PartitionLength = strconv.Itoa(total), strconv.Itoa(1024/total)
+			if 1024%total != 0 {
+				sh.PartitionCount = fmt.Sprintf("%d,1", total-1)
+				sh.PartitionLength = fmt.Sprintf("%d,%d", 1024/total, 1024-(total-1)*(1024/total))
+			}
+			sh.HashSlice = []string{"0:2", "2", ":", "-2:", "1:3", ":-1", "0:0"}[tp.Choose(7)]
+			d.keys = strs("", "a", "ab", "abc", "abd", "abcd", "b", "ba", "user001", "user002", "user010", "zz", "0", "00", "12", "21", "a b", "2014-05-01", "中文", "中文字", "q")
+		case "mycat_padding_mod":
+			sh.PadFrom = []string{"0", "1"}[tp.Choose(2)]
+			switch tp.Choose(3) {
+			case 0:
+				sh.PadLength, sh.ModBegin, sh.ModEnd = "18", "10", "16" // the defaults of the rule
+			case 1:
+				sh.PadLength, sh.ModBegin, sh.ModEnd = "6", "0", "3"
+			default:
+				sh.PadLength, sh.ModBegin, sh.ModEnd = "4", "2", "4"
+			}
+			d.keys = ints(append(small, 9, 10, 11, 99, 100, 101, 999, 1000, 1001, 1234, 4321, 12345, 99999, 100000, 123456, 1234567, 98765432, 2147483647, 123456789012345678)...)
 		case "mycat_long":
 			sh.PartitionCount, sh.PartitionLength = strconv.Itoa(total), strconv.Itoa(1024/total)
 			if 1024%total != 0 {
@@ -199,9 +226,10 @@ type dataWorld struct {
 	// breakInsertOn: backend address whose connection is reset when the next INSERT arrives there (one shot)
 	breakInsertOn string
 	faulted       bool
-	child         string   // linked child table of the sharded table ("" = none)
-	sessDB        string   // the session's current database
-	gcopies       []string // database names of the global table's copies (mycat style), nil = one copy per slice
+	child         string          // linked child table of the sharded table ("" = none)
+	sessDB        string          // the session's current database
+	gcopies       []string        // database names of the global table's copies (mycat style), nil = one copy per slice
+	globalCopySet map[string]bool // "addr|db.table" of every copy of the global table
 }
 
 func classifyData(r *simkit.Run) {
@@ -320,8 +348,12 @@ func (d *dataWorld) exec(c *mysim.Conn, st *mysim.Stmt) *mysim.Reply {
 		if db == "" {
 			db = c.DB
 		}
-		ensure(s, db, tn.Name.O)
 		key := c.B.Addr + "|" + sqlmini.Key(db, tn.Name.O)
+		if d.global != "" && strings.EqualFold(tn.Name.O, d.global) && d.globalCopySet != nil && !d.globalCopySet[key] {
+			// the global table has no copy here: a real backend has no such table (creating it on demand would turn the error into silently missing rows)
+			return &mysim.Reply{Err: &myproto.ServerError{Code: 1146, State: "42S02", Msg: fmt.Sprintf("Table '%s.%s' doesn't exist", db, tn.Name.O)}}
+		}
+		ensure(s, db, tn.Name.O)
 		if d.inFlight {
 			d.received[key]++
 		}
@@ -581,6 +613,12 @@ func runData(r *simkit.Run, prop string) {
 		return
 	}
 	d.w = w
+	if d.global != "" {
+		d.globalCopySet = map[string]bool{}
+		for _, cp := range d.globalCopies() {
+			d.globalCopySet[cp] = true
+		}
+	}
 	w.Cl.Logf = r.Logf
 	w.Cl.Exec = d.exec
 	w.Cl.Fault = func(c *mysim.Conn, st *mysim.Stmt) *mysim.FaultAction {
